@@ -28,9 +28,25 @@ case "$TIER:$ID" in
     fi ;;
 esac
 LIMIT=1500; [ "$TIER" = thorough ] && LIMIT=10800
-timeout -s QUIT -k 30 "$LIMIT" "$BIN/$id" -tier "$TIER" "$@"
-rc=$?
+LOG="$BIN/$id.$TIER.$$.log"
+timeout -s QUIT -k 30 "$LIMIT" "$BIN/$id" -tier "$TIER" "$@" 2>&1 | tee "$LOG"
+rc=${PIPESTATUS[0]}
 if [ $rc -ne 0 ] && [ $rc -ne 1 ]; then
   echo "check $ID ended abnormally (rc=$rc)"
+  # The e2e checks run the library in the check process: an unrecovered panic or a runtime fatal error
+  # (concurrent map writes, unlock of unlocked mutex, ...) on one of the LIBRARY's goroutines takes the
+  # process down before the monitor can speak. That is a violation of the property under test (and of
+  # C10/C16 in any case), not a harness failure — provided the first non-runtime frame of the crashing goroutine is in the
+  # library (tools/crash_owner.py); a crash in the check's own code stays an abnormal end (rc=2).
+  if [ $rc -eq 2 ] && python3 /verif/tools/crash_owner.py "$LOG" >/dev/null; then
+    mkdir -p "/verif/replays/$ID"
+    R="/verif/replays/$ID/$TIER-process-crash-seed${VERIF_SEED:-1}.txt"
+    { echo "check process of $ID died (rc=$rc); crash report and the 100 lines before it:"; grep -a -B100 -A80 -m1 -E '^(panic: |fatal error: )' "$LOG"; } > "$R"
+    echo "[$ID] violation sub=process-crash: $(grep -a -m1 -E '^(panic: |fatal error: )' "$LOG" | cut -c1-200)"
+    echo "VIOLATION property=$ID replay=$R"
+    rm -f "$LOG"
+    exit 1
+  fi
 fi
+rm -f "$LOG"
 exit $rc
